@@ -66,9 +66,17 @@ def optional_strength_cut(name='entry'):
     None or an entry; entries are totally pre-ordered by their index (C04), modelled as an integer strength"""
     def cut(I, ctx, fn, args, kwargs, node):
         import z3
-        none = I.fresh(name + '?none', 'bool')
-        v = I.fresh(name, 'int')
-        return Choice(((none, None), (z3.Not(none), v)))
+        from . import models
+        # the same lookup asked about the same cards gives the same answer (the lookup is a constant table)
+        lk = ctx.get(args[0]) if isinstance(args[0], Ref) else args[0]
+        key = (type(lk).__name__ if not isinstance(lk, SymObj) else lk.cls.__name__,
+               models.struct_key(I, ctx, models.to_seq(I, ctx, args[1])))
+        memo = I.__dict__.setdefault('strength_memo', {})
+        if key not in memo:
+            none = I.fresh(name + '?none', 'bool')
+            v = I.fresh(name, 'int')
+            memo[key] = Choice(((none, None), (z3.Not(none), v)))
+        return memo[key]
     return cut
 
 
